@@ -15,7 +15,7 @@ not entail is reported as not discharged; nothing is ever assumed about values t
 not track (they are unbounded)."""
 import itertools
 
-from model import strip, const_value, dstr
+from model import strip, const_value, dstr, assigned_value
 
 INF = float('inf')
 ZERO = '0'
@@ -339,6 +339,7 @@ class Analysis:
                 names.add(p['n'])
         names |= set(self.deref_vars.values())
         self.names = sorted(names)
+        self.nameset = set(names)
         self.states = {}
         self.unsigned = set()
         for b in fn.blocks.values():
@@ -358,6 +359,8 @@ class Analysis:
         return False
 
     def _scalar(self, x):
+        if x.get('n') in getattr(self, 'nameset', ()):
+            return True         # a variable known to be scalar from another mention (inlined helpers lose type details)
         return x.get('vk') in ('local', 'param') and self._scalar_ty(x.get('tk'), x.get('ty'))
 
     @staticmethod
@@ -432,6 +435,15 @@ class Analysis:
             return None
         return None
 
+    def lin_or_temp(self, d, z, tmp='__t'):
+        """linear form of d; for a non-linear d (a quotient, ...) the scratch variable `tmp` is assigned its value (with
+        whatever bounds the domain derives) and stands for it.  None if `tmp` is not part of the analysis."""
+        f = self.lin(d, z)
+        if f is not None or tmp not in z.ix:
+            return f
+        self.assign_expr(z, tmp, d)
+        return ({tmp: 1}, 0)
+
     def interval(self, d, z):
         """(lo, hi) of an integer expression, using linear forms, division by a positive constant and
         nothing else."""
@@ -466,6 +478,10 @@ class Analysis:
             f = ({v: c for v, c in t.items() if c}, s * f[1])
         if f is not None:
             z.assign(x, f, unsigned=uns)
+            return
+        # linear part + non-linear rest (`p + n / 2 - 1`): the rest is bounded by its interval, and a quotient `y / c` of a
+        # non-negative y also by y itself
+        if d is not None and self._assign_mixed(z, x, d, compound):
             return
         # non-linear right-hand side: interval, and `q = y / c` keeps q <= y for y >= 0
         lo, hi = self.interval(d, z) if (d is not None and not compound) else (-INF, INF)
@@ -502,6 +518,70 @@ class Analysis:
             for (y, c) in rel:
                 z.add(x, y, c)
 
+    def _split(self, d, z, sign=1):
+        """d as (linear form, [(sign, non-linear descriptor)]) over + and - ; None if nothing linear can be separated."""
+        d0 = strip(d)
+        f = self.lin(d0, z)
+        if f is not None:
+            return (({v: sign * c for v, c in f[0].items()}, sign * f[1]), [])
+        if isinstance(d0, dict) and d0.get('k') == 'bin' and d0['op'] in ('+', '-'):
+            a = self._split(d0['l'], z, sign)
+            b = self._split(d0['r'], z, sign if d0['op'] == '+' else -sign)
+            t = dict(a[0][0])
+            for v, c in b[0][0].items():
+                t[v] = t.get(v, 0) + c
+            return (({v: c for v, c in t.items() if c}, a[0][1] + b[0][1]), a[1] + b[1])
+        return (({}, 0), [(sign, d0)])
+
+    def _assign_mixed(self, z, x, d, compound):
+        form, rest = self._split(d, z)
+        if not rest or len(rest) > 2 or (not form[0] and not compound):
+            return False
+        if compound:
+            s = 1 if compound == '+' else -1
+            t = {v: s * c for v, c in form[0].items()}
+            t[x] = t.get(x, 0) + 1
+            form = ({v: c for v, c in t.items() if c}, s * form[1])
+            rest = [(s * sg, nd) for sg, nd in rest]
+        lo = hi = 0
+        rels = []           # (variable y, k): the rest is <= y + k
+        for sg, nd in rest:
+            l_, h_ = self.interval(nd, z)
+            if sg < 0:
+                l_, h_ = -h_, -l_
+            lo, hi = lo + l_, hi + h_
+            if sg > 0 and len(rest) == 1:
+                r_ = self._div_relation(nd, z)
+                if r_:
+                    rels += r_
+        newrow, newcol = {}, {}
+        for v in z.vars:
+            if v == x:
+                continue
+            t = dict(form[0])
+            t[v] = t.get(v, 0) - 1
+            t = {a: b for a, b in t.items() if b}
+            up = z.form_ub((t, form[1])) + hi
+            for (y, k) in rels:
+                t2 = dict(t)
+                t2[y] = t2.get(y, 0) + 1
+                up = min(up, z.form_ub(({a: b for a, b in t2.items() if b}, form[1] + k)))
+            newrow[v] = up
+            newcol[v] = -z.form_lb((t, form[1])) - lo
+        z.forget(x)
+        i = z.ix[x]
+        for v, b in newrow.items():
+            if b < INF:
+                z.m[i][z.ix[v]] = min(z.m[i][z.ix[v]], b)
+        for v, b in newcol.items():
+            if b < INF:
+                z.m[z.ix[v]][i] = min(z.m[z.ix[v]][i], b)
+        z.close()
+        if x in self.unsigned and z.ub(ZERO, x) > 0:
+            z.forget(x)
+            z.add(ZERO, x, 0)
+        return True
+
     def _div_relation(self, d, z):
         """for q = (y / c) + k with y >= 0 a tracked form of one variable: q - y <= k  (c >= 1)."""
         k = 0
@@ -524,7 +604,7 @@ class Analysis:
         """state after `cond` evaluated to `taken`."""
         if z.bot:
             return z
-        d = strip(cond)
+        d = strip(assigned_value(cond))
         pol = taken
         while isinstance(d, dict) and d.get('k') == 'un' and d['op'] == '!':
             d = strip(d['e'])
